@@ -50,12 +50,12 @@ type bounds struct {
 
 func boundsFor(tier string) bounds {
 	if tier == "thorough" {
-		return bounds{ArgValues: 0, Amounts: amountSels, NTokens: len(tokenSels), CapCand: 8192, CapAcc: []int{16, 16, 16, 16, 64}, Encodings: []bool{true, true, true, true, true},
+		return bounds{ArgValues: 0, Amounts: amountSels, NTokens: len(tokenSels), CapCand: 8192, CapAcc: []int{8, 8, 8, 8, 40}, Encodings: []bool{true, true, true, true, true},
 			Bases: []string{"genesis", "entries", "matured"}, AllActors: true, Depth2: true, Depth2CapA: 2, Depth2CapB: 2, Weights: []int{3, 3, 5, 5, 12}}
 	}
 	// quick: the method code is the same in every regime (only the table lookup and two liquidity branches read the spork
 	// flags), so the all-sporks regime gets the larger cap and the encodings
-	return bounds{ArgValues: 2, Amounts: amountSels[:2], NTokens: 2, CapCand: 256, CapAcc: []int{2, 2, 2, 2, 4}, Encodings: []bool{false, false, false, false, true},
+	return bounds{ArgValues: 2, Amounts: amountSels[:2], NTokens: 2, CapCand: 256, CapAcc: []int{1, 1, 1, 1, 3}, Encodings: []bool{false, false, false, false, true},
 		Bases: []string{"genesis", "entries", "matured"}, Weights: []int{2, 2, 4, 4, 8},
 		BasesFor: func(ri int) []string {
 			if ri == 0 || ri == len(regimes)-1 {
@@ -379,17 +379,26 @@ func (w *worker) group(s *snapshot, filter *vnode.Node, mr methodRef, actorIdx i
 		return id
 	}
 	cf := cpuMs()
-	for {
+	tkey := func(t []int) string { return fmt.Sprint(t) }
+	isAcc := map[string]bool{}
+	try := func(t []int) bool {
 		id := mk(t)
 		g.gen++
 		if err := w.preValidate(env, filter, id); err != nil {
 			w.r.Count("refused_by_validate_send_block", 1)
 			w.r.Add("send_time_refusals", errClass(err))
+			return false
 		} else if _, err := id.submit(env, filter, false); err != nil {
 			w.r.Count("refused_by_node", 1)
 			w.r.Add("send_time_refusals", errClass(err))
-		} else {
-			g.acc++
+			return false
+		}
+		g.acc++
+		isAcc[tkey(t)] = true
+		return true
+	}
+	for {
+		if try(t) {
 			accepted = append(accepted, append([]int{}, t...))
 		}
 		// next tuple
@@ -406,11 +415,53 @@ func (w *worker) group(s *snapshot, filter *vnode.Node, mr methodRef, actorIdx i
 			break
 		}
 	}
+	// star: around an accepted centre (all arguments at their first value if such a call is accepted), every other value
+	// of every dimension of the tier, one at a time. These are executed whatever the caps say.
+	var centre []int
+	for _, a := range accepted {
+		first := true
+		for i := 0; i < na; i++ {
+			if a[i] != 0 {
+				first = false
+			}
+		}
+		if first {
+			centre = a
+			break
+		}
+	}
+	if centre == nil && len(accepted) > 0 {
+		centre = accepted[0]
+	}
+	var star [][]int
+	if centre != nil {
+		star = append(star, centre)
+		for i := range tierDims {
+			for j := 0; j < tierDims[i]; j++ {
+				if j == centre[i] {
+					continue
+				}
+				t := append([]int{}, centre...)
+				t[i] = j
+				if within(t, dims) {
+					if isAcc[tkey(t)] {
+						star = append(star, t)
+					}
+				} else if try(t) {
+					star = append(star, t)
+				}
+			}
+		}
+	}
 	w.r.Count("cpu_ms_filter", cpuMs()-cf)
+	inStar := map[string]bool{}
+	for _, t := range star {
+		inStar[tkey(t)] = true
+	}
 	count := func() int {
 		k := 0
 		for _, a := range accepted {
-			if within(a, dims) {
+			if within(a, dims) && !inStar[tkey(a)] {
 				k++
 			}
 		}
@@ -430,7 +481,18 @@ func (w *worker) group(s *snapshot, filter *vnode.Node, mr methodRef, actorIdx i
 	if pruned {
 		w.r.Add("pruned_groups", fmt.Sprintf("%s %v of %v", key, dims, tierDims))
 	}
+	for _, a := range star {
+		if w.c.Expired() {
+			w.r.Incomplete = true
+			break
+		}
+		w.r.Count("star_states", 1)
+		w.runOne(s, mk(a), g)
+	}
 	for _, a := range accepted {
+		if inStar[tkey(a)] {
+			continue
+		}
 		if !within(a, dims) {
 			w.r.Count("accepted_not_executed_cap", 1)
 			continue
@@ -738,6 +800,7 @@ func replay(c *xs.Ctx, r *xs.Result) {
 	w := &worker{c: c, r: r, b: boundsFor("thorough")}
 	w.ri = id.Regime
 	w.nsub = 1
+	r.Count("replay_mode", 1)
 	w.buildBases(map[string]bool{id.Base: true, "entries": id.Base != "genesis", "matured": id.Base == "matured"})
 	s := w.snaps[id.Base]
 	if s == nil {
@@ -829,7 +892,7 @@ func finish(tier string, m *xs.Result, ev *xs.Evidence) {
 	ev.Coverage["states"] = m.Counters["states"]
 	ev.Coverage["transitions"] = m.Counters["transitions"]
 	ev.Coverage["traces_validated_against_impl"] = m.Counters["traces_validated_against_impl"]
-	if m.Counters["regimes_built"] > 0 && (m.Counters["states"] < 100 || m.Counters["applied"] == 0 || m.Counters["refunded"] == 0 || m.Counters["refunds_with_amount_checked"] == 0) && len(m.Violations) == 0 {
+	if m.Counters["replay_mode"] == 0 && m.Counters["regimes_built"] > 0 && (m.Counters["states"] < 100 || m.Counters["applied"] == 0 || m.Counters["refunded"] == 0 || m.Counters["refunds_with_amount_checked"] == 0) && len(m.Violations) == 0 {
 		panic(fmt.Sprintf("vacuity guard: states=%d applied=%d refunded=%d refunds with amount=%d", m.Counters["states"], m.Counters["applied"], m.Counters["refunded"], m.Counters["refunds_with_amount_checked"]))
 	}
 }
@@ -857,7 +920,7 @@ func init() {
 			"regimes: origin, accelerator, accelerator+bridge, accelerator+htlc (historical order), all three; one regime per worker process",
 			"the producer path is driven at Supervisor level (GenerateAutoReceive for the inbox head, as pillar.worker.generateNext does) with the panic captured; the pillar's own task goroutine is not used because its re-panic would kill the process",
 			"send-time acceptance is decided by the real node (GenerateFromTemplate; for non-canonical encodings also chain-bridge AddAccountBlocks of a self-signed block); refused sends are outside the property",
-			"bounds: quick = 2 values per argument x amounts {required, zero} x 2 tokens, senders relevant to the method, <=256 candidates and <=4 (all-sporks regime; <=2 elsewhere) executed accepted sends per (base, method, sender), encodings in the all-sporks regime; thorough = full domains x 4 amounts x 6 tokens, <=8192 candidates and <=48 (<=12 elsewhere) executed per group, encodings everywhere, depth-2 chains (applied A, then B, both from the quick product, <=2 per method and sender) in the origin and all-sporks regimes on the entries state; domains are cut from the end (values are ordered by relevance) when a group exceeds a cap; what is cut is listed in the notes",
+			"bounds: quick = 2 values per argument x amounts {required, zero} x 2 tokens, senders relevant to the method, <=256 product candidates per (base, method, sender); executed: the star (an accepted centre call and every single-value deviation from it, always) plus <=3 (all-sporks regime; <=1 elsewhere) further accepted sends of the product, encodings in the all-sporks regime; thorough = full domains x 4 amounts x 6 tokens, <=8192 product candidates, star plus <=40 (<=8 elsewhere) further executed per group, encodings everywhere, depth-2 chains (applied A, then B, both from the quick product, <=2 per method and sender) in the origin and all-sporks regimes on the entries state; domains are cut from the end (values are ordered by relevance) when a group exceeds a cap; what is cut is listed in the notes",
 			"a base-state snapshot is reopened per case (copy of the leveldb directories); the follower is a second real node fed through ChainBridge.InsertChain",
 		},
 	})
